@@ -68,14 +68,82 @@ def regf():
     return reg
 
 
+RECONNECT_MACHINES = ("Nameplate", "Mailbox", "Allocator", "Lister", "Order", "Key", "_SortedKey", "Receive")
+
+
 def select(name):
-    return name.startswith("post:C09:")
+    """C09's share of the cluster obligations: everything outstanding is re-issued on a new connection (post:C09:*);
+    the machines that live across connections never get an input they have no row for (a lost/connected in the
+    wrong half, a peer message handed on twice after the mailbox was re-opened); the application-visible events
+    stay once-only (post:C18:*once)"""
+    if name.startswith("post:C09:"):
+        return True
+    if name.startswith("nodom:") and name[len("nodom:"):].split(".")[0] in RECONNECT_MACHINES:
+        return True
+    return name.startswith("post:C18:") and "once" in name
+
+
+# ---------------------------------------------------------------------------------------------------------------
+# The reconnect contract of the four machines that live across connections, read off the real transition tables.
+# "A = disconnected, B = connected; the numeral is the durable part": `lost` must keep the numeral and do nothing,
+# `connected` must keep (or advance) the numeral and put exactly the outstanding request back on the wire.
+RECONNECT = {
+    ("wormhole/_nameplate.py", "Nameplate"): {
+        "connected": {"S0A": ("S0B", []), "S1A": ("S2B", ["RC_tx_claim"]), "S2A": ("S2B", ["RC_tx_claim"]),
+                      "S3A": ("S3B", []), "S4A": ("S4B", ["RC_tx_release"]), "S5A": ("S5B", [])},
+        "lost": {"S0B": "S0A", "S2B": "S2A", "S3B": "S3A", "S4B": "S4A", "S5B": "S5A"}},
+    ("wormhole/_mailbox.py", "Mailbox"): {
+        "connected": {"S0A": ("S0B", []), "S1A": ("S2B", ["RC_tx_open", "drain"]), "S2A": ("S2B", ["RC_tx_open", "drain"]),
+                      "S3A": ("S3B", ["RC_tx_close"]), "S4A": ("S4B", [])},
+        "lost": {"S0B": "S0A", "S2B": "S2A", "S3B": "S3A", "S4B": "S4A"}},
+    ("wormhole/_allocator.py", "Allocator"): {
+        "connected": {"S0A_idle": ("S0B_idle_connected", []), "S1A_allocating": ("S1B_allocating_connected", ["RC_tx_allocate"]),
+                      "S2_done": ("S2_done", [])},
+        "lost": {"S0B_idle_connected": "S0A_idle", "S1B_allocating_connected": "S1A_allocating", "S2_done": "S2_done"}},
+    ("wormhole/_lister.py", "Lister"): {
+        "connected": {"S0A_idle_disconnected": ("S0B_idle_connected", []),
+                      "S1A_wanting_disconnected": ("S1B_wanting_connected", ["RC_tx_list"])},
+        "lost": {"S0B_idle_connected": "S0A_idle_disconnected", "S1B_wanting_connected": "S1A_wanting_disconnected"}},
+}
+
+
+def reconnect_tables_task(tier, seed):
+    import time
+    from pyvc import source
+    from pyvc.automat import Machine
+    from pyvc.runner import ob
+    t0 = time.time()
+    obs = []
+
+    def chk(name, cond, src):
+        obs.append(ob(name, "discharged" if cond else "failed", "evaluation", 0.0, False, None,
+                      {"kind": "data", "src": src, "definite": True}, smt_hash=name))
+
+    for (rel, cls), want in RECONNECT.items():
+        m = Machine(source.load_module(rel).classes[cls])
+        canon = lambda s_: m.aliases.get(s_, s_) if hasattr(m, "aliases") else s_      # noqa
+        rows = m.table
+        for st, (to, outs) in want["connected"].items():
+            row = rows.get((canon(st), "connected"))
+            chk(f"{rel}:{cls}.table.connected@{st}", row is not None and canon(row[0]) == canon(to) and list(row[1]) == outs,
+                f"{st} --connected--> {to} re-issuing exactly {outs} (found {None if row is None else (row[0], list(row[1]))})")
+        for st, to in want["lost"].items():
+            row = rows.get((canon(st), "lost"))
+            chk(f"{rel}:{cls}.table.lost@{st}", row is not None and canon(row[0]) == canon(to) and list(row[1]) == [],
+                f"{st} --lost--> {to} with no output (found {None if row is None else (row[0], list(row[1]))})")
+        # no other row handles connected / lost (a new one would be outside this contract)
+        extra = sorted(k for k in rows if k[1] in ("connected", "lost") and
+                       k[0] not in {canon(x) for x in list(want["connected"]) + list(want["lost"])})
+        chk(f"{rel}:{cls}.table.no-other-connectivity-rows", not extra, f"connected/lost are handled only in the states above (extra: {extra})")
+    return {"obligations": obs, "info": {"target": "Nameplate/Mailbox/Allocator/Lister <transition tables>", "sha": None,
+                                         "lines": None, "paths": 1, "wall": round(time.time() - t0, 3)}}
 
 
 def tasks():
     import os
+    from pyvc.runner import FuncTask
     nocl = (not CLUSTER_READY) or bool(os.environ.get('VERIF_NO_CLUSTER'))
-    return [ContractTask(c, regf) for c in CONTRACTS] + \
+    return [ContractTask(c, regf) for c in CONTRACTS] + [FuncTask("reconnect-tables", reconnect_tables_task, True, "data")] + \
         ([] if nocl else [ClusterTask("mailbox-cluster", "props.mailbox", "engine", select, "mailbox_history:search")])
 
 
